@@ -51,7 +51,7 @@ def run(c: Check):
     # lines with the same abstract content get the same verdict: validate one representative of each
     groups, order, eqs = {}, [], []
     for e in pkg + sock:
-        if e["ev"] == "Eq":
+        if e["ev"] in ("Eq", "Reuse"):
             eqs.append(e)
             continue
         k = (e["src"],) + tuple(e[f] for f in ABSTRACT)
@@ -92,10 +92,10 @@ def run(c: Check):
             miss = need - seen[src].get(t, set())
             if miss:
                 raise Undecided("vacuous: %s lane %s never saw classes %s" % (src, t, sorted(miss)))
-    if len(eqs) < (150 if th else 10):
+    if len([e for e in eqs if e["ev"] == "Eq"]) < (150 if th else 10):
         raise Undecided("only %d equivalence queries" % len(eqs))
     for e in eqs:
-        c.count_case(("eq", e["hex"]))
+        c.count_case(("eq", e["hex"] or e["key"]))
     c.cov["traces_validated_against_impl"] += total + len(eqs) - sum(
         (sum(x["cnt"] for x in groups[order[i]]) if i < len(order) else 1) for i in bad)
     c.cov["rule"] = ("a case is one input on one transport (in-package lane or socket) or one query sent over all nine transport "
@@ -110,6 +110,10 @@ def run(c: Check):
         reasons = bad[i]
         if i >= len(order):
             e = eqs[i - len(order)]
+            if e["ev"] == "Reuse":
+                c.violation({"kind": "long-lived-connection", "transport": e["t"]},
+                            "C01 %s: only %d got their own answer: %s" % (e["key"], e["n"], reasons), e)
+                continue
             c.violation({"kind": "transport-difference", "h": e["h"]},
                         "C01 query %s (wire %s) over all transports: %s; replies: %s" % (
                             e["key"], e["hex"][:200], reasons, json.dumps(e["items"])[:900]), e)
